@@ -89,6 +89,7 @@ def wire_rules(ctx, R, verbs=True):
     # judged where the definition stands
     expanded = []
     sinks = []
+    direct = []
     for st, el in emits:
         if isinstance(el, ast.Name) and el.id != var:
             defs = [d for d in walk_no_nested(loops[0]) if isinstance(d, ast.Assign) and len(d.targets) == 1 and isinstance(d.targets[0], ast.Name)
@@ -98,6 +99,7 @@ def wire_rules(ctx, R, verbs=True):
                 sinks.append(st)
                 continue
         expanded.append((st, el))
+        direct.append(st)
     emits = expanded
     if len(emits) < 3:
         raise AnalysisError("W2", "formatter: fewer than 3 emission sites recognised")
@@ -247,7 +249,7 @@ def wire_rules(ctx, R, verbs=True):
     ctx.need("W2", "quoting branches", nq, 1)
     # exactly one emission per iteration
     head = [n for n in cfg.nodes_for(loops[0]) if n.kind == "loop"][0]
-    enodes = [x for st in sinks for x in cfg.nodes_for(st)] if sinks else [x for st, _ in emits for x in cfg.nodes_for(st)]
+    enodes = [x for st in sinks + direct for x in cfg.nodes_for(st)]
     body_entry = [m for m, _ in head.succ if m.kind == "fact" and m.info == "for-next"]
     skip = head in cfg.reach(body_entry, avoid=enodes, exc=False)
     twice = any(any(e2 in cfg.reach([m for m, _ in e1.succ], avoid=[head], exc=False) for e2 in enodes) for e1 in enodes)
@@ -327,6 +329,8 @@ def wire_rules(ctx, R, verbs=True):
     # argument provenance at every sender site
     for f, c, verb in sites:
         a = bound_arg(c, snd, args_param) if args_param else None
+        if isinstance(a, ast.Constant) and a.value is None:
+            a = None  # the default, passed explicitly
         if a is not None:
             if not isinstance(a, ast.List):
                 ctx.violation("W5", f, "args-not-list:%s" % verb, "arguments of %s are not a literal list" % verb, node=c)
